@@ -136,6 +136,8 @@ pub fn eval(ctx: &Ctx, c: &Case) -> Verdict {
                 Ok(parts) => for p in parts { served.push((p.content_range.unwrap_or_default(), p.body)); },
                 Err(e) => { problems.push(("multipart-byteranges-body-malformed".into(), format!("{}; {}", e, ctxt))); }
             }
+            // a multipart answer need not carry a Content-Length, but one that is there frames the body: a client that honours it must get all parts
+            if let Some(cl) = resp.get("Content-Length") { if cl.parse::<usize>().ok() != Some(resp.body.len()) { problems.push(("content-length-differs-from-bytes-sent".into(), format!("multipart answer with Content-Length {:?} and {} body bytes; {}", cl, resp.body.len(), ctxt))); } }
         } else {
             served.push((resp.get("Content-Range").unwrap_or("").to_string(), resp.body.clone()));
             if resp.get("Content-Length").and_then(|v| v.parse::<usize>().ok()) != Some(resp.body.len()) { problems.push(("content-length-differs-from-bytes-sent".into(), format!("Content-Length {:?}, {} body bytes; {}", resp.get("Content-Length"), resp.body.len(), ctxt))); }
